@@ -31,8 +31,14 @@
    and — for the predicted PRESENCE of a multivariate draw — that a symmetric matrix is positive
    definite (C17_mv_draw_present_iff_posdef) iff every pivot of its exact LDL^T decomposition is
    positive (textbook; from C08_ldlt_sound's A = L D L^T, not restated here).
+   Wave 4 (builder GEN, block at the end of this file): C17_generated_draw_matches_model -
+   Gaussian::draw and generate_pair are re-translated from src/distributions.rs on every run
+   (tools/gen_arith.py element backend -> Gen/ArithReal.v) and proved equal to Model.Gaussian.draw
+   for every dictionary, source and budget >= k (Proofs/GenGaussianP.v): the univariate draw every
+   theorem here speaks about is tied to the Rust TEXT, not only to the transcription.
    Limits: K1 (0 samples: the library panics, the model returns None); the rcf theorems have no
-   constructed instance (none installed, as in C08); floats are not modelled (oracle tier only). *)
+   constructed instance (none installed, as in C08); floats are not modelled (oracle tier only);
+   draw_tensor_samples / the Cholesky routine / probability are transcribed, not regenerated. *)
 From Coq Require Import List Arith NArith ZArith Reals.
 From EasyML Require Import Base.Sx Model.Num Model.Stats Model.Gaussian Proofs.C14P Proofs.RealOps Proofs.C17P Proofs.C17R Proofs.C17Chol.
 From EasyML Require Model.Decomp Model.LinAlg Proofs.C08P2 Proofs.C08P5 Proofs.C17PD.
@@ -359,3 +365,39 @@ Print Assumptions C17_mv_draw_absent_no_factor.
 Print Assumptions C17_mv_draw_absent_not_posdef.
 Print Assumptions C17_mv_draw_present_iff_posdef.
 Print Assumptions C17_float_oracle_pdf_reference.
+
+(* ---- fourth extension wave (builder GEN): Gaussian::draw / generate_pair regenerated from the source ----
+   tools/gen_arith.py (element backend) re-translates the bodies of Gaussian::draw and
+   Gaussian::generate_pair from src/distributions.rs on every run (Gen/ArithReal.v): values of the
+   element type T are values of the dictionary's carrier, `self` is (mean, variance), the source
+   iterator is the list of numbers it will still yield (`next()` pops the front, `?` on None returns
+   None with the source as it is then), the `while` loop runs under an iteration budget `fuel`.
+   For EVERY dictionary, gaussian, source, sample count k and budget >= k the generated draw is the
+   model's draw (Model/Gaussian.v) - value and remaining source -, and the generated generate_pair
+   takes the first two numbers in order (u, then v) or answers None having consumed what was left.
+   This ties to the Rust TEXT: how many pairs are drawn for k samples (the loop condition), which of
+   the two numbers is u and which v, cos for the first / sin for the second sample of a pair, the pop
+   of the surplus sample for odd k, the early None, the scaling by sqrt(variance) and the shift by the
+   mean.  (Proofs/GenGaussianP.v; every C17 theorem above is about Model.Gaussian.draw.) *)
+From EasyML Require Gen.ArithReal Proofs.GenGaussianP.
+
+Theorem C17_generated_draw_matches_model :
+  forall (R : Type) (ops : numops R) (mean variance : R) (source : list R) (k : N) (fuel : nat),
+  N.to_nat k <= fuel ->
+  ArithReal.gen_Gaussian_draw ops fuel (mean, variance) source k =
+    Some (draw ops (mkGaussian mean variance) source k) /\
+  ArithReal.gen_Gaussian_generate_pair ops (mean, variance) source =
+    match source with u :: v :: rest => (Some (u, v), rest) | _ => (None, []) end.
+Proof.
+  intros R ops mean variance source k fuel H. split.
+  - exact (GenGaussianP.gen_Gaussian_draw_eq ops mean variance source k fuel H).
+  - exact (GenGaussianP.gen_Gaussian_generate_pair_eq ops (mean, variance) source).
+Qed.
+
+(* non-vacuity: the generated definitions evaluated by the kernel on the prime-field dictionary - 3
+   samples take 4 of 5 numbers, a budget of 1 iteration is not enough for 3 samples (the hypothesis
+   on fuel is needed), a source of 3 numbers runs dry, generate_pair takes (2, 3) of [2; 3; 5] *)
+Example C17_generated_draw_nonvacuous : GenGaussianP.gaussian_example.
+Proof. exact GenGaussianP.gaussian_example_holds. Qed.
+
+Print Assumptions C17_generated_draw_matches_model.
